@@ -68,6 +68,11 @@ def k11(ctx):
                 for i, m in enumerate(("noinline", "default")) if run.get("gen:" + m) != run.get("src:" + m)]
         if run:
             parts["run"] = {"n": 2, "n_dis": len(rdis), "dis": rdis}
+        # witnesses of listed findings (known_findings.json, kind k11): reported, never a disagreement
+        witness = {"deferred-through-variable": {
+            "reproduces": bool(run) and run.get("gen:noinline:findings") != run.get("src:noinline:findings"),
+            "source": run.get("src:noinline:findings"), "generated": run.get("gen:noinline:findings"),
+            "with_inlining": {"source": run.get("src:default:findings"), "generated": run.get("gen:default:findings")}}}
         return {"ok": all(p["n_dis"] == 0 for p in parts.values()), "parts": parts, "evaluations": len(shapes),
-                "distinct_nontrivial": len(shapes), "samples": [f"{x['code']} -> {x['impl']}" for x in shapes[:3]]}
+                "distinct_nontrivial": len(shapes), "samples": [f"{x['code']} -> {x['impl']}" for x in shapes[:3]], "witness": witness}
     return ctx.stage("k11", run)
